@@ -180,6 +180,13 @@ func (e *Engine) report(verbose bool) {
 			if g.worst != nil && g.worst.QueryFile != "" && verbose {
 				fmt.Printf("            query: %s trace: %s\n", g.worst.QueryFile, strings.Join(g.worst.Trace, " "))
 			}
+			if verbose && g.status != "discharged" {
+				for _, o := range g.instances {
+					if o.Status != "unsat" {
+						fmt.Printf("            %s %s %s\n", o.Status, o.QueryFile, strings.Join(o.Trace, " "))
+					}
+				}
+			}
 		}
 	}
 	fmt.Printf("SUMMARY groups=%d discharged=%d failed=%d undecided=%d error=%d instances=%d\n", len(gs), cnt["discharged"], cnt["failed"], cnt["undecided"], cnt["error"], len(e.obligations))
